@@ -1,5 +1,5 @@
 import Deb822Verif.Lemmas.RelLexField
-import Deb822Verif.Spec.DocS
+import Deb822Verif.Spec.DocSDec
 /-!
   A relationship field written in a deb822 document, and the value the deb822 reader hands out.
 
@@ -845,5 +845,31 @@ theorem EntryS.str_rawValue (e : EntryS) (more : Bool) (ht : e.Term more) :
   have := conts_str_raw e.nl e.conts more (by rcases h1 with h | h; exact Or.inl h; exact Or.inr h.1) h2
   simp only [EntryS.str, rawValue, List.append_assoc, List.cons_append]
   rw [this]
+
+/-! ### non-vacuity -/
+
+/-- ` a (>= 1),\n\tb [x\n  !y] |\n c,\n ${v:W}` — gaps with newlines before an entry, inside a
+    bracket and after `|` -/
+def exDedent : FieldA :=
+  ⟨[ ⟨[.ws [' ']], .alts ⟨['a'], none,
+        some ⟨[.ws [' ']], [], .GreaterThanEqual, [.ws [' ']], ⟨none, ['1']⟩, []⟩, none, []⟩ [], []⟩,
+     ⟨[.nl, .ws ['\t']], .alts ⟨['b'], none, none,
+        some ⟨[.ws [' ']], [⟨[], false, ['x']⟩, ⟨[.nl, .ws [' ', ' ']], true, ['y']⟩], []⟩, []⟩
+        [⟨[.ws [' ']], [.nl, .ws [' ']], ⟨['c'], none, none, none, []⟩⟩], []⟩,
+     ⟨[.nl, .ws [' ']], .substvar ['v'] [['W']], []⟩ ]⟩
+
+example : exDedent.WF := by decide +kernel
+example : exDedent.str = " a (>= 1),\n\tb [x\n  !y] |\n c,\n ${v:W}".toList := by decide +kernel
+example : dedentStr exDedent.str = "a (>= 1),\nb [x\n!y] |\nc,\n${v:W}".toList := by decide +kernel
+example : exDedent.docForm.str = "a (>= 1),\nb [x\n!y] |\nc,\n${v:W}".toList := by decide +kernel
+
+/-- a field whose first line is empty -/
+def exEntry : Spec.EntryS :=
+  { key := ['D'], ws := [' '], v := [], nl := true,
+    conts := [⟨[' '], "a (>= 1),".toList, true⟩, ⟨['\t'], "b".toList, false⟩] }
+
+example : exEntry.WF ∧ exEntry.Term false := by constructor <;> decide
+example : rawValue exEntry = " \n a (>= 1),\n\tb".toList ∧ exEntry.str = "D: \n a (>= 1),\n\tb".toList := by decide
+example : dedentStr (rawValue exEntry) = "a (>= 1),\nb".toList := by decide
 
 end Deb822Verif.RelSpec
